@@ -37,12 +37,12 @@ Variable conv : ty -> value -> option value.
 Variable bidir : bool.
 Notation istep := (istep conv bidir).
 
-Lemma own_rem_step b0 v po e : py_eqv v v = true ->
-  istep (mkSt (VList (b0 ++ [v])) po e) (IRem [PKey (ik (length b0))] v) = mkSt (VList b0) po e.
+Lemma own_rem_step b0 v' v po e : py_eqv v' v = true -> py_eqv v v = true ->
+  istep (mkSt (VList (b0 ++ [v'])) po e) (IRem [PKey (ik (length b0))] v) = mkSt (VList b0) po e.
 Proof.
-  intros R. cbn [istep]. unfold remove_one. cbn [removelast last key_atom resolve root].
+  intros R' R. cbn [istep]. unfold remove_one. cbn [removelast last key_atom resolve root].
   rewrite get_item_list_ik. rewrite nth_error_app2 by lia. rewrite Nat.sub_diag. cbn [nth_error].
-  rewrite R. cbn [negb].
+  rewrite R'. cbn [negb].
   unfold del_elem. cbn [resolve root is_tuple untuple upd post errs].
   rewrite del_item_list_ik by (rewrite app_length; cbn; lia).
   rewrite firstn_app, Nat.sub_diag, firstn_all. cbn [firstn]. rewrite app_nil_r.
@@ -214,40 +214,55 @@ Proof.
     rewrite get_item_list_ik in *. rewrite N by exact Hi. exact G.
 Qed.
 
-Lemma list_pass6 m s S c6 tail q6 :
-  Rel (Kof m) s S -> (exists b0, root s = VList (b0 ++ tail) /\ length b0 = m) -> forallb wf tail = true ->
+Definition pyeq (a b : value) : Prop := py_eqv a b = true.
+
+Lemma Forall2_len {A B} (R : A -> B -> Prop) l l' : Forall2 R l l' -> length l = length l'.
+Proof. induction 1; cbn; congruence. Qed.
+
+Lemma Forall2_snoc_inv {A B} (R : A -> B -> Prop) l' t v : Forall2 R l' (t ++ [v]) ->
+  exists t' v', l' = t' ++ [v'] /\ Forall2 R t' t /\ R v' v.
+Proof.
+  intros F. apply Forall2_app_inv_r in F as (t' & l2 & F1 & F2 & ->). inversion F2 as [|v' ? l2' ? Rv F3]; subst. inversion F3; subst.
+  exists t', v'. auto.
+Qed.
+
+Lemma list_pass6 m s S c6 tail' tail q6 :
+  Rel (Kof m) s S -> (exists b0, root s = VList (b0 ++ tail') /\ length b0 = m) -> Forall2 pyeq tail' tail -> forallb wf tail = true ->
   child_items (Kof m) c6 -> Permutation (c6 ++ tail_rem m tail) q6 -> desc q6 ->
   Rel (Kof m) (irun q6 s) (fun k => irun (restrictL k q6) (S k)) /\
   exists b0', root (irun q6 s) = VList b0' /\ length b0' = m.
 Proof.
-  intros HR (b0 & Hroot & Hb0) Wt Hc HP HD.
+  intros HR (b0 & Hroot & Hb0) FT Wt Hc HP HD.
   set (Inv := fun (rest : list item) (W : value) =>
-     exists b1 elems, length b1 = m /\ W = VList (b1 ++ elems) /\ rest = rev (tail_rem m elems) /\ forallb wf elems = true).
+     exists b1 elems' elems, length b1 = m /\ W = VList (b1 ++ elems') /\ Forall2 pyeq elems' elems /\
+                             rest = rev (tail_rem m elems) /\ forallb wf elems = true).
   destruct (rel_fold conv bidir (Kof m) (list item) Inv (fun q x q' => q = x :: q') own6) with
     (l := q6) (s := s) (S := S) (q := rev (tail_rem m tail)) (qf := @nil item) as [A B].
   - (* child steps keep the invariant *)
-    intros rest W k v W' (b1 & elems & L1 & -> & Hr & We) Hk HS.
+    intros rest W k v W' (b1 & elems' & elems & L1 & -> & FE & Hr & We) Hk HS.
     apply Kof_In in Hk as (i & -> & Hi).
     rewrite set_item_list_ik in HS by (rewrite app_length; lia). inversion HS; subst W'.
-    exists (repl i v b1), elems. split; [rewrite repl_length by lia; exact L1|].
-    split; [rewrite repl_app_l by lia; reflexivity|]. split; assumption.
+    exists (repl i v b1), elems', elems. split; [rewrite repl_length by lia; exact L1|].
+    split; [rewrite repl_app_l by lia; reflexivity|]. split; [exact FE|]. split; assumption.
   - (* own steps *)
-    intros rest rest' s0 S0 x HR0 (b1 & elems & L1 & Hr0 & Hr & We) Ox ->.
+    intros rest rest' s0 S0 x HR0 (b1 & elems' & elems & L1 & Hr0 & FE & Hr & We) Ox ->.
     destruct elems as [|v t _] using rev_ind; [cbn in Hr; discriminate|].
     rewrite tail_rem_snoc, rev_app_distr in Hr. cbn [rev app] in Hr. inversion Hr; subst x rest'.
+    apply Forall2_snoc_inv in FE as (t' & v' & -> & FE' & Rv).
+    assert (Lt : length t' = length t) by (eapply Forall2_len; exact FE').
     destruct s0 as [W po e]. cbn [root] in Hr0. subst W.
     rewrite forallb_app in We. apply andb_true_iff in We as [Wt' Wv]. cbn in Wv. apply andb_true_iff in Wv as [Wv _].
-    rewrite app_assoc. replace (m + length t) with (length (b1 ++ t)) by (rewrite app_length; lia).
-    rewrite own_rem_step by (apply py_eqv_rfl; exact Wv). cbn [root]. split.
+    rewrite app_assoc. replace (m + length t) with (length (b1 ++ t')) by (rewrite app_length; lia).
+    rewrite (own_rem_step conv bidir (b1 ++ t') v' v po e Rv (py_eqv_rfl v Wv)). cbn [root]. split.
     + rewrite app_assoc in HR0. eapply Rel_reroot; [exact HR0|rewrite app_length; lia|].
-      intros i Hi. rewrite (nth_error_app1 (b1 ++ t)) by (rewrite app_length; lia). reflexivity.
-    + exists b1, t. repeat split; assumption.
+      intros i Hi. rewrite (nth_error_app1 (b1 ++ t')) by (rewrite app_length; lia). reflexivity.
+    + exists b1, t', t. repeat split; assumption.
   - (* every other item is a child item *)
     intros x Hx Ox. apply (Permutation_in _ (Permutation_sym HP)) in Hx. apply in_app_or in Hx as [Hx|Hx].
     + apply Hc. exact Hx.
     + apply tail_rem_In in Hx as (j & v & -> & _). discriminate.
   - exact HR.
-  - exists b0, tail. repeat split; assumption.
+  - exists b0, tail', tail. repeat split; assumption.
   - rewrite <- (own6_order (Kof m) c6 m tail q6 Hc HP HD). apply own_run_filter.
   - split.
     + eapply Rel_ext; [|exact A]. intros k Hk. unfold runS, restrictL. f_equal. f_equal.
@@ -256,11 +271,10 @@ Proof.
       * rewrite (child_not_own6 _ _ _ Hc Hx) in Ox. discriminate.
       * apply tail_rem_In in Hx as (j & v & -> & Hj & _). apply Kof_In in Hk as (i & -> & Hi).
         unfold fkey. cbn. destruct (Z.eqb_spec (Z.of_nat j) (Z.of_nat i)); [lia|reflexivity].
-    + destruct B as (b1 & elems & L1 & Hr0 & Hr & _). destruct elems as [|v t _] using rev_ind.
-      * exists b1. rewrite app_nil_r in Hr0. split; assumption.
+    + destruct B as (b1 & elems' & elems & L1 & Hr0 & FE & Hr & _). destruct elems as [|v t _] using rev_ind.
+      * inversion FE; subst. exists b1. rewrite app_nil_r in Hr0. split; assumption.
       * rewrite tail_rem_snoc, rev_app_distr in Hr. discriminate.
 Qed.
-
 
 Lemma list_pass7 m s S c7 tail q7 :
   Rel (Kof m) s S -> (exists b0, root s = VList b0 /\ length b0 = m) ->
@@ -346,7 +360,7 @@ Variable q : path.
 Notation D := (D hatom udiff ops c conv bidir always T1 T2).
 Notation DL := (DL hatom udiff ops c conv bidir always T1 T2 q).
 Notation Good := (Good hatom udiff ops c conv bidir always).
-Notation GoodD := (GoodD conv bidir).
+Notation GoodD := (GoodD conv bidir always).
 Notation irun := (irun conv bidir).
 Notation run_passes := (run_passes conv bidir).
 Notation finish := (finish conv bidir).
@@ -385,6 +399,23 @@ Proof.
   - intros p [].
 Qed.
 
+Lemma veqb_list_inv v xs : veqb v (VList xs) = true -> exists vs, v = VList vs /\ Forall2 (fun a b => veqb a b = true) vs xs.
+Proof.
+  destruct v; cbn; try discriminate. intros V. exists xs0. split; [reflexivity|]. apply all2_Forall2. rewrite <- veqb_list. exact V.
+Qed.
+
+Lemma Forall2_nth {A B} (R : A -> B -> Prop) l l' : Forall2 R l l' ->
+  forall i x y, nth_error l i = Some x -> nth_error l' i = Some y -> R x y.
+Proof.
+  induction 1 as [|a b l l' Hab F IH]; intros i x y Hx Hy; [destruct i; discriminate|].
+  destruct i as [|i]; cbn in Hx, Hy; [inversion Hx; inversion Hy; subst; exact Hab|eapply IH; eassumption].
+Qed.
+
+Lemma Forall2_skipn {A B} (R : A -> B -> Prop) n l l' : Forall2 R l l' -> Forall2 R (skipn n l) (skipn n l').
+Proof.
+  revert l l'; induction n as [|n IH]; intros l l' F; [exact F|]. destruct F; cbn; [constructor|apply IH; assumption].
+Qed.
+
 Theorem list_node_good xs ys :
   resolve T1 q = Some (VList xs) -> resolve T2 q = Some (VList ys) ->
   forallb wf ys = true -> forallb wf xs = true ->
@@ -393,12 +424,14 @@ Theorem list_node_good xs ys :
 Proof.
   intros R1 R2 Wy Wx HG.
   assert (HGD : forall k x y, nth_error xs k = Some x -> nth_error ys k = Some y ->
-            DeltaGood.GoodD conv bidir (D x y (snoc q (PIdx k))) (S (length q)) x y).
+            DeltaGood.GoodD conv bidir always (D x y (snoc q (PIdx k))) (S (length q)) x y).
   { intros k x y Hx Hy. rewrite <- (snoc_length q (PIdx k)). apply (HG k x y Hx Hy).
     - eapply resolve_seq_item; [exact R1|reflexivity|exact Hx].
     - eapply resolve_seq_item; [exact R2|reflexivity|exact Hy]. }
   split.
   { apply DL_moved. intros k x y Hx Hy. cbn [Nat.add]. apply (HGD k x y Hx Hy). }
+  intros v Wv Vv OB. apply veqb_list_inv in Vv as (vs & -> & FV). cbn [wf] in Wv.
+  assert (LV : length vs = length xs) by (eapply Forall2_len; exact FV).
   intros P HA.
   set (m := Nat.min (length xs) (length ys)).
   destruct (DL_struct hatom udiff ops c conv bidir always T1 T2 q xs ys 0) as (Sa & Sb & Sc).
@@ -409,7 +442,6 @@ Proof.
   destruct (Sb 6) as (c7 & E7 & C7). destruct (Sb 7) as (c8 & E8 & C8). destruct (Sb 8) as (c9 & E9 & C9).
   unfold tailj in E1, E2, E3, E4, E5, E6, E7, E8, E9. fold m in E6, E7. cbn [Nat.add] in E6, E7.
   rewrite app_nil_r in E1, E2, E3, E4, E5, E8, E9.
-  pose proof (Arr_restrict) as AR.
   remember (sbase (length q) (DL 0 xs ys)) as B eqn:EB.
   assert (LB : length B = 9) by (subst B; reflexivity).
   destruct B as [|b1 [|b2 [|b3 [|b4 [|b5 [|b6 [|b7 [|b8 [|b9 [|]]]]]]]]]]; try discriminate LB.
@@ -419,20 +451,25 @@ Proof.
   cbn in HA. destruct HA as (-> & -> & -> & -> & -> & [P6 D6] & [P7 D7] & -> & [P9 D9]).
   (* passes 1-5 *)
   assert (Lm1 : m <= length xs) by (unfold m; lia). assert (Lm2 : m <= length ys) by (unfold m; lia).
-  pose proof (Rel_init xs m Lm1) as R0.
+  assert (Lm0 : m <= length vs) by lia.
+  pose proof (Rel_init vs m Lm0) as R0.
   destruct (rel_passes_children conv bidir (Kof m) [c1; c2; c3; c4; c5] _ _
               (Forall_cons _ C1 (Forall_cons _ C2 (Forall_cons _ C3 (Forall_cons _ C4 (Forall_cons _ C5 (Forall_nil _)))))) R0)
     as [R5 O5].
   cbn [root] in O5. apply same_off_list in O5 as (b5 & Hb5 & L5 & N5).
-  set (s5 := run_passes [c1; c2; c3; c4; c5] (mkSt (VList xs) [] 0)) in *.
-  assert (Hs5 : exists b0, root s5 = VList (b0 ++ skipn m xs) /\ length b0 = m).
+  set (s5 := run_passes [c1; c2; c3; c4; c5] (mkSt (VList vs) [] 0)) in *.
+  assert (Hs5 : exists b0, root s5 = VList (b0 ++ skipn m vs) /\ length b0 = m).
   { exists (firstn m b5). split; [|rewrite firstn_length; lia]. rewrite Hb5. f_equal.
     apply split_tail; [lia|]. intros j Hj. symmetry. apply N5. intros Hin. apply Kof_In in Hin as (i & Ei & Hi).
     apply ik_inj in Ei. lia. }
   assert (Wt : forallb wf (skipn m xs) = true).
   { apply forallb_forall. intros v Hv. eapply forallb_forall in Wx; [exact Wx|]. rewrite <- (firstn_skipn m xs). apply in_or_app. right. exact Hv. }
+  assert (FT : Forall2 pyeq (skipn m vs) (skipn m xs)).
+  { apply Forall2_skipn. clear -FV Wx. induction FV as [|a b l l' Hab F IH]; [constructor|].
+    cbn in Wx. apply andb_true_iff in Wx as [Wb Wx]. constructor; [|apply IH; exact Wx].
+    destruct (veqb_facts a b Hab Wb) as (_ & A & _). exact A. }
   (* pass 6 *)
-  destruct (list_pass6 conv bidir m s5 _ c6 (skipn m xs) q6 R5 Hs5 Wt C6 P6 D6) as [R6 Hs6].
+  destruct (list_pass6 conv bidir m s5 _ c6 (skipn m vs) (skipn m xs) q6 R5 Hs5 FT Wt C6 P6 D6) as [R6 Hs6].
   (* pass 7 *)
   destruct (list_pass7 conv bidir m _ _ c7 (skipn m ys) q7 R6 Hs6 C7 P7 D7) as [R7 (b7 & Hb7 & L7)].
   (* passes 8, 9 *)
@@ -441,14 +478,20 @@ Proof.
   (* post-processing *)
   destruct (rel_finish conv bidir (Kof m) _ _ R9) as [R10 O10].
   set (s9 := run_passes [c8; q9] (irun q7 (irun q6 s5))) in *.
-  assert (Es9 : run_passes [c1; c2; c3; c4; c5; q6; q7; c8; q9] (mkSt (VList xs) [] 0) = s9) by reflexivity.
+  assert (Es9 : run_passes [c1; c2; c3; c4; c5; q6; q7; c8; q9] (mkSt (VList vs) [] 0) = s9) by reflexivity.
   rewrite Es9.
   (* the children *)
   assert (CH : forall i x y, nth_error xs i = Some x -> nth_error ys i = Some y ->
-     errs (finish (run_passes (restrictP (ik i) [c1; c2; c3; c4; c5; q6; q7; c8; q9]) (S0 xs (ik i)))) = 0 /\
-     veqb (root (finish (run_passes (restrictP (ik i) [c1; c2; c3; c4; c5; q6; q7; c8; q9]) (S0 xs (ik i))))) y = true).
-  { intros i x y Hx Hy. rewrite (S0_ik xs i x Hx). apply (HGD i x y Hx Hy).
-    pose proof (Sa i x y Hx Hy) as SA. cbn [Nat.add] in SA. rewrite <- SA. apply Arr_restrict. exact HA0. }
+     errs (finish (run_passes (restrictP (ik i) [c1; c2; c3; c4; c5; q6; q7; c8; q9]) (S0 vs (ik i)))) = 0 /\
+     veqb (root (finish (run_passes (restrictP (ik i) [c1; c2; c3; c4; c5; q6; q7; c8; q9]) (S0 vs (ik i))))) y = true).
+  { intros i x y Hx Hy.
+    destruct (nth_error vs i) as [v|] eqn:Hv; [|apply nth_error_None in Hv; assert (i < length xs) by (apply nth_error_Some; congruence); lia].
+    rewrite (S0_ik vs i v Hv). destruct (HGD i x y Hx Hy) as [_ HR].
+    apply (HR v).
+    - eapply forallb_forall in Wv; [exact Wv|eapply nth_error_In; exact Hv].
+    - eapply (Forall2_nth _ _ _ FV); eassumption.
+    - apply (okb_list_nth conv bidir always vs xs ys OB i v x y Hv Hx Hy).
+    - pose proof (Sa i x y Hx Hy) as SA. cbn [Nat.add] in SA. rewrite <- SA. apply Arr_restrict. exact HA0. }
   destruct R10 as (HS10 & HG10 & _ & _ & HE10).
   pose proof (same_off_trans _ _ _ _ O9 O10) as O. rewrite Hb7 in O.
   apply same_off_list in O as (b10 & Hb10 & L10 & N10).
